@@ -123,8 +123,7 @@ def nbs_bct(x, y, thresh, k=1000, tail='both', paired=False, verbose=False, seed
     def ttest_paired_stat_only(A, B, tail):
         n = len(A - B)
         df = n - 1
-        sample_ss = np.sum((A - B)**2) - np.sum(A - B)**2 / n
-        unbiased_std = np.sqrt(sample_ss / (n - 1))
+        unbiased_std = np.std(A - B, ddof=1)
         z = np.mean(A - B) / unbiased_std
         t = z * np.sqrt(n)
         if tail == 'both':
